@@ -2,6 +2,10 @@ import CircBuf.Lemmas.Ops
 import CircBuf.Lemmas.Remove
 import CircBuf.Lemmas.Swap
 import CircBuf.Lemmas.Truncate
+import CircBuf.Lemmas.Loops
+import CircBuf.Lemmas.Contig
+import CircBuf.Lemmas.Drain
+import CircBuf.Lemmas.Contents
 /-!
 # C01 — every mutator implements bounded-deque sequence semantics
 
@@ -68,6 +72,52 @@ theorem C01_truncate_front (s : Sys) (n : Nat) (h : Inv s.buf) (hf : s.faults.dr
 
 theorem C01_clear (s : Sys) (h : Inv s.buf) (hf : s.faults.drop = 0) :
     RefinesL clear s () [] (dropEvents s.kind (abs s.buf)) := clear_spec s h hf
+
+/-- `make_contiguous` does not change the sequence -/
+theorem C01_make_contiguous (s : Sys) (h : Inv s.buf) :
+    ∃ b' v, makeContiguous s = (.ok v, { s with buf := b' }) ∧ Inv b' ∧ abs b' = abs s.buf ∧
+      b'.cap = s.buf.cap := by
+  obtain ⟨b', v, h1, h2, h3, h4, _⟩ := makeContiguous_spec s h
+  exact ⟨b', v, h1, h2, h3, h4⟩
+
+/-- `extend(iter)` with an iterator of `m` new elements: the buffer ends up with the last `cap`
+elements of `old contents ++ new elements`; `Runs` also gives the ledger and the id counter. -/
+theorem C01_extend (m : Nat) (s : Sys) (h : Inv s.buf) (hd : s.faults.drop = 0)
+    (hn : s.faults.next = 0) (hk : s.kind = .tracked) :
+    Runs (extendIter m) s () (Spec.extend s.buf.cap (abs s.buf) (newElems s.next m))
+      (extendLog s.kind s.buf.cap (abs s.buf) (newElems s.next m)) m := by
+  have := extendIter_runs m s h hd hn hk
+  rw [pushMany_contents _ _ _ (by rw [abs_length _ h]; exact h.size_le)] at this
+  exact this
+
+/-- `fill_spare_with(f)`: the free space is filled with the closure's results, in call order -/
+theorem C01_fill_spare_with (s : Sys) (h : Inv s.buf) (hd : s.faults.drop = 0)
+    (hc : s.faults.call = 0) (hk : s.kind = .tracked) :
+    Runs fillSpareWith s () (abs s.buf ++ newElems s.next (s.buf.cap - s.buf.size))
+      ((newElems s.next (s.buf.cap - s.buf.size)).reverse.map fun e => Event.given e.id)
+      (s.buf.cap - s.buf.size) := fillSpareWith_runs s h hd hc hk
+
+/-- `fill_with(f)`: old contents destroyed, the buffer is full of the closure's results -/
+theorem C01_fill_with (s : Sys) (h : Inv s.buf) (hd : s.faults.drop = 0)
+    (hc : s.faults.call = 0) (hk : s.kind = .tracked) :
+    Runs fillWith s () (newElems s.next s.buf.cap)
+      (((newElems s.next s.buf.cap).reverse.map fun e => Event.given e.id) ++
+        dropEvents s.kind (abs s.buf)) s.buf.cap := fillWith_runs s h hd hc hk
+
+/-- `drain(a..b)` followed by its drop, after any consumption: what is left is
+`take a ++ drop b` (details in C09) -/
+theorem C01_drain (b0 : CB) (d : Drain) (s : Sys) (hd : DrainInv b0 d s) (hf : s.faults.drop = 0) :
+    ∃ b', (d.drop s).1 = .ok () ∧ (d.drop s).2.buf = b' ∧ Inv b' ∧
+      abs b' = (Spec.drain (abs b0) d.rs d.re).2 ∧ b'.cap = b0.cap := by
+  obtain ⟨b', h1, h2, h3, h4, _⟩ := Drain.drop_spec b0 d s hd hf
+  exact ⟨b', by rw [h1], by rw [h1], h2, h3, h4⟩
+
+/-- a write through a mutable view (`get_mut`, `index_mut`, `iter_mut`, …) replaces exactly that
+position -/
+theorem C01_write (b : CB) (h : Inv b) (i : Nat) (hi : i < b.size) (v : Elem) :
+    Inv { b with items := setCell b.items (phys b.start b.cap i) (some v) } ∧
+    abs { b with items := setCell b.items (phys b.start b.cap i) (some v) } = (abs b).set i v :=
+  write_spec b h i hi v
 
 /-- non-vacuity: a wrapped, full buffer of capacity 3 (front position 2) satisfies the invariant -/
 example : Inv ⟨3, 3, 2, fun i => some ⟨i + 1, 10 * i⟩⟩ := by
